@@ -6,7 +6,7 @@ RotationCoversExactlyActive.
      open-invite join, direct add, remove, leave request, invite revoke + rotation in one record, stand-alone
      rotation, re-add), single and 2-content, plus the full hostile alphabet at smaller depth.
   2. "as-is" instances (GrantWithoutKey, DoubleRotation): TLC must find the gap, the counterexample is run on the real list.
-  3. Binding: after every replayed path each account's private view is rebuilt from the raw log with that account's
+  3. Binding (incl. a client-builder pass over every honest history of <= 3 records): after every replayed path each account's private view is rebuilt from the raw log with that account's
      keys only (validating and plain client decoder) and compared with the true keys; a log-level adversary per
      private key (accounts and invite keys) tries every ciphertext; raw rotation recipients are inspected, both of
      hand-made records and of records made by the real client builder.
@@ -57,6 +57,12 @@ def run(ctx):
         job(h.emit, "D", "AclGen.cfg", SET="D", GenDepth=2, FullDepth=0, BatchDepth=0)
         job(h.emit, "C", "AclGen.cfg", SET="C", GenDepth=1, FullDepth=0, BatchDepth=0)
         job(h.emit, "C-deep", "AclGen.cfg", SET="C", SimDepth=5, SimSample=8, simulate=6, depth=6)
+    # honest histories for the client-builder pass (dir names "H-*": every builder-expressible record of every state
+    # is built with the acting account's own RecordBuilder): all behaviours of <= 3 (4) records, which contain
+    # rotation between request and accept, between invite creation and join, between remove and re-add
+    job(h.emit, "H-E", "AclGen.cfg", SET="E", Honest=True, GenDepth=3, FullDepth=0, BatchDepth=0, timeout=3000)
+    if thorough:
+        job(h.emit, "H-D", "AclGen.cfg", SET="D", Honest=True, GenDepth=3, FullDepth=0, BatchDepth=0, timeout=3000)
     h.parallel(ctx, J)
     h.replay(ctx, "TestCounterexamples$", VERIF_CEX=os.path.join(ctx.scratch, "cex"))
     h.nonvacuous(ctx, emit_root)
